@@ -26,14 +26,14 @@ Proof.
 Qed.
 
 Lemma elems_ok n (es : list expr) :
-  (forall e, (size e <= n)%nat -> wfp e = true -> Q e) ->
-  (list_sum (map size es) <= n)%nat -> forallb wfp es = true -> Forall (ElemOK full) es.
+  (forall e, (size e <= n)%nat -> printable e = true -> Q e) ->
+  (list_sum (map size es) <= n)%nat -> forallb printable es = true -> Forall (ElemOK full) es.
 Proof.
   intros IH Hs Hw. rewrite Forall_forall. intros x Hin. rewrite forallb_forall in Hw.
   pose proof (in_size_le x es Hin). split; [apply IH; [lia|]|]; apply Hw; exact Hin.
 Qed.
 
-Theorem all_Q : forall n e, (size e <= n)%nat -> wfp e = true -> Q e.
+Theorem all_Q : forall n e, (size e <= n)%nat -> printable e = true -> Q e.
 Proof.
   induction n as [|n IH]; intros e Hs Hw; [pose proof (size_pos e); lia|].
   apply spec_pr.
@@ -42,13 +42,13 @@ Proof.
   destruct e as [v sz|bb|raw|lv path|uo a|o a b0|c t f0|l r0 a|s a|es|f0 args].
   - apply (Parses_fuel _ _ 1%nat); [apply own_num; exact Hw | unfold K; cbn [size]; lia].
   - apply (Parses_fuel _ _ 1%nat); [apply own_bool | unfold K; cbn [size]; lia].
-  - discriminate.
-  - cbn [wfp] in Hw. apply andb_prop in Hw. destruct Hw as [Hl Hw]. apply N.eqb_eq in Hl. subst lv.
-    destruct path as [|nm [|? ?]]; try discriminate.
-    apply (Parses_fuel _ _ 3%nat); [apply own_var; exact Hw | unfold K; cbn [size]; lia].
-  - cbn [wfp size] in *.
+  - apply (Parses_fuel _ _ 1%nat); [apply own_str; exact Hw | unfold K; cbn [size]; lia].
+  - cbn [printable] in Hw. destruct path as [|nm path]; [discriminate|]. cbn [forallb] in Hw.
+    apply andb_prop in Hw. destruct Hw as [Hn Hp].
+    apply (Parses_fuel _ _ (N.to_nat lv + length path + 3)%nat); [apply own_var; assumption | unfold K; cbn [size length]; lia].
+  - cbn [printable size] in *.
     apply (Parses_fuel _ _ (K * size a + 1)%nat); [apply own_un; [apply IH; [lia|exact Hw] | exact Hw] | unfold K; lia].
-  - cbn [wfp size] in *. apply andb_prop in Hw. destruct Hw as [Wa Wb].
+  - cbn [printable size] in *. apply andb_prop in Hw. destruct Hw as [Wa Wb].
     assert (Qa : Q a) by (apply IH; [lia|exact Wa]). assert (Qb : Q b0) by (apply IH; [lia|exact Wb]).
     destruct (assign_dec o) as [-> | Ho].
     + change (Parses parse_expr (bad0 (ends_open b0)) (K * S (size a + size b0) - 70) (S (bd (EBin Assign a b0)))
@@ -60,18 +60,18 @@ Proof.
       assert (Ec : ochain full (EBin o a b0) = S (chain full (binop_prec o) a)) by (destruct o; try congruence; reflexivity).
       rewrite Ec.
       pose proof (own_bin full o a b0 Ho Qa Qb) as H. revert H. apply BinSpec_weaken; unfold K; lia.
-  - cbn [wfp size] in *. apply andb_prop in Hw. destruct Hw as [Hw Wf]. apply andb_prop in Hw. destruct Hw as [Wc Wt].
+  - cbn [printable size] in *. apply andb_prop in Hw. destruct Hw as [Hw Wf]. apply andb_prop in Hw. destruct Hw as [Wc Wt].
     apply (Parses_fuel _ _ (K * (size c + size t + size f0) + 50)%nat); [|unfold K; lia].
     apply own_tern; apply IH; assumption || lia.
-  - cbn [wfp size] in *. apply andb_prop in Hw. destruct Hw as [Hw Wa]. apply andb_prop in Hw. destruct Hw as [Wl Wr].
+  - cbn [printable size] in *. apply andb_prop in Hw. destruct Hw as [Hw Wa]. apply andb_prop in Hw. destruct Hw as [Wl Wr].
     change (Parses (plev []) (badp 12) (K * S (size l + size r0 + size a) - 70) (bd (ESlice l r0 a)) (body (ESlice l r0 a)) (ESlice l r0 a)).
     apply (Parses_fuel _ _ (S (K * (size l + size r0 + size a) + 50))); [|unfold K; lia].
     apply lift_lev0. apply own_slice; try (apply IH; assumption || lia). exact Wr.
-  - cbn [wfp size] in *. apply andb_prop in Hw. destruct Hw as [Ws Wa].
+  - cbn [printable size] in *. apply andb_prop in Hw. destruct Hw as [Ws Wa].
     apply (Parses_fuel _ _ (K * (size s + size a) + 1)%nat); [|unfold K; lia].
     apply own_short; apply IH; assumption || lia.
-  - cbn [wfp size] in Hw, Hs. apply own_block. apply (elems_ok n); [exact IH | lia | exact Hw].
-  - cbn [wfp size] in Hw, Hs. apply andb_prop in Hw. destruct Hw as [Wf Wa].
+  - cbn [printable size] in Hw, Hs. apply own_block. apply (elems_ok n); [exact IH | lia | exact Hw].
+  - cbn [printable size] in Hw, Hs. apply andb_prop in Hw. destruct Hw as [Wf Wa].
     apply own_call; [apply IH; [lia|exact Wf] | apply (elems_ok n); [exact IH | lia | exact Wa]].
 Qed.
 
@@ -88,16 +88,26 @@ Proof.
   - cbn [map] in *. rewrite sepby_cons2. rewrite !app_length. lia.
 Qed.
 
-Lemma size_le_len : forall n e, (size e <= n)%nat -> wfp e = true -> forall p, (size e <= length (pr p e))%nat.
+Lemma names_len (path : list text) : (forall x, In x path -> (1 <= length x)%nat) ->
+  (length path <= length (sepby [46%N] path))%nat.
+Proof.
+  induction path as [|x path IH]; intro H; [cbn; lia|].
+  pose proof (H x (or_introl eq_refl)). assert (IH' := IH (fun y Hy => H y (or_intror Hy))).
+  destruct path as [|y path]; [cbn [sepby length]; lia|]. rewrite sepby_cons2, !app_length. cbn [length] in *. lia.
+Qed.
+
+Lemma size_le_len : forall n e, (size e <= n)%nat -> printable e = true -> forall p, (size e <= length (pr p e))%nat.
 Proof.
   induction n as [|n IH]; intros e Hs Hw p; [pose proof (size_pos e); lia|].
   assert (Hb : (size e <= length (body e))%nat).
-  { destruct e as [v sz|bb|raw|lv path|uo a|o a b0|c t f0|l r0 a|s a|es|f0 args]; cbn [wfp size body] in *.
+  { destruct e as [v sz|bb|raw|lv path|uo a|o a b0|c t f0|l r0 a|s a|es|f0 args]; cbn [printable size body] in *.
     - destruct (print_num_shape v sz Hw) as (d0 & s0 & -> & _). cbn [length]. lia.
     - destruct bb; cbn; lia.
-    - discriminate.
-    - apply andb_prop in Hw. destruct Hw as [_ Hw]. destruct path as [|nm [|? ?]]; try discriminate.
-      cbn [sepby]. destruct nm; [discriminate|]. cbn [length]. lia.
+    - destruct (str_ok_shape raw Hw) as (bd0 & -> & _). cbn [length]. lia.
+    - destruct path as [|nm path]; [discriminate|]. rewrite forallb_forall in Hw.
+      unfold print_var. rewrite app_length, repeat_length.
+      pose proof (names_len (nm :: path) ltac:(intros x Hx; destruct (name_first x (Hw x Hx)) as (c0 & n' & -> & _); cbn [length]; lia)).
+      cbn [length] in *. lia.
     - pose proof (IH a ltac:(lia) Hw 14%nat). rewrite app_length. destruct uo; cbn [unop_text length]; lia.
     - apply andb_prop in Hw. destruct Hw as [Wa Wb].
       destruct o; rewrite !app_length; cbn [length];
@@ -124,7 +134,7 @@ Proof.
   rewrite pr_eq. destruct (needs_paren full p e); [|exact Hb]. unfold paren. rewrite !app_length. cbn [length]. lia.
 Qed.
 
-Theorem round_trip e : wfp e = true -> (S (pd 0 e) <= PARSE_DEPTH_MAX)%nat ->
+Theorem round_trip e : printable e = true -> (S (pd 0 e) <= PARSE_DEPTH_MAX)%nat ->
   parse_text (pr 0 e) = POk e (W (bytes_len (pr 0 e)) []).
 Proof.
   intros Hw Hd. pose proof (all_Q (size e) e (le_n _) Hw 0%nat ltac:(lia)) as H.
